@@ -139,6 +139,18 @@ def run(ctx):
     r = ctx.model("Fmt", "MCPrintf", "MCPrintf_quick.cfg" if ctx.quick else "MCPrintf_thorough.cfg", workers=8, xmx="16g", timeout=7000)
     recs = list(tlc.printed_tuples(r, "H", budget=30000 if ctx.quick else 400000))
     cases = [make_case(rec) for rec in recs]
+    if ctx.quick:
+        # the quick directive space leaves out the rarer length modifiers; every modifier x integer conversion is still
+        # rendered once per boundary value with a few flag/width/precision shapes (the thorough space has the full product)
+        nofl = {"minus": False, "plus": False, "space": False, "hash": False, "zero": False, "quote": False}
+        for ln in ("h", "z", "t", "j", "hh", "l", "ll", ""):
+            for conv in ("d", "i", "u", "o", "x", "X"):
+                for v in range(5):
+                    for fl, w, pr in ((nofl, "", ""), (dict(nofl, minus=True), "9", ""), (dict(nofl, zero=True), "9", ""),
+                                      (dict(nofl, hash=True), "", ".3"), (dict(nofl, plus=True), "*", "")):
+                        if fl["hash"] and conv not in ("o", "x", "X"):
+                            continue      # ISO C leaves # undefined for d, i, u
+                        cases.append(make_case({"flags": fl, "conv": conv, "len": ln, "val": v, "width": w, "prec": pr}))
     for c in cases:
         if len(c["fmt"]) > 4:
             ctx.count_history([c["fmt"], c["args"]])
